@@ -83,7 +83,12 @@ type ArgPtrs struct {
 	OptI int64  `graphql:",optional"`
 	OptS string `graphql:"optS,optional"`
 	OptN Nested `graphql:",optional"`
-	Req  int32
+	// a pointer that also carries the optional tag: a zero value sent for it arrives as a pointer to zero
+	OPI *int64   `graphql:",optional"`
+	OPS *string  `graphql:",optional"`
+	OPB *bool    `graphql:",optional"`
+	OPF *float64 `graphql:",optional"`
+	Req int32
 }
 
 type ArgLists struct {
@@ -631,15 +636,15 @@ func checkNegative(t *rapid.T, b built) (string, string, error) {
 	var wrong interface{}
 	switch f.Val.Kind {
 	case "int", "float":
-		wrong = rapid.SampledFrom([]interface{}{"12", true, []interface{}{1.0}, map[string]interface{}{"a": 1.0}}).Draw(t, "wrong")
+		wrong = rapid.SampledFrom([]interface{}{"12", true, []interface{}{1.0}, map[string]interface{}{"a": 1.0}, "", false}).Draw(t, "wrong")
 	case "string", "enum":
-		wrong = rapid.SampledFrom([]interface{}{12.0, true, []interface{}{"x"}, map[string]interface{}{"a": "x"}}).Draw(t, "wrong")
+		wrong = rapid.SampledFrom([]interface{}{12.0, true, []interface{}{"x"}, map[string]interface{}{"a": "x"}, 0.0, false}).Draw(t, "wrong")
 	case "bool":
-		wrong = rapid.SampledFrom([]interface{}{"true", 1.0, []interface{}{true}}).Draw(t, "wrong")
+		wrong = rapid.SampledFrom([]interface{}{"true", 1.0, []interface{}{true}, "", 0.0}).Draw(t, "wrong")
 	case "list":
-		wrong = rapid.SampledFrom([]interface{}{map[string]interface{}{"a": 1.0}, "x", 3.0, true}).Draw(t, "wrong")
+		wrong = rapid.SampledFrom([]interface{}{map[string]interface{}{"a": 1.0}, "x", 3.0, true, "", 0.0, false}).Draw(t, "wrong")
 	case "object":
-		wrong = rapid.SampledFrom([]interface{}{[]interface{}{1.0}, "x", 3.0, true}).Draw(t, "wrong")
+		wrong = rapid.SampledFrom([]interface{}{[]interface{}{1.0}, "x", 3.0, true, "", 0.0, false}).Draw(t, "wrong")
 	default:
 		return "", "", nil
 	}
